@@ -560,6 +560,204 @@ def lifetime(ctx: Any) -> List[Ob]:
     return obs
 
 
+# ------------------------------------------------------------------------------------------------------------- C05.LOOKUPS
+_ABSENT = object()
+
+
+def _element_selection(ctx: Any, f: FuncInfo, atoms: Dict[str, Any]) -> Tuple[Set[bool], Set[Any], List[str]]:
+    """Evaluate a reader of the cache under `atoms` (one bucket element per loop trip).  Returns (set of `an element was
+    selected` over all feasible paths, set of returned values, undecided tests).  An element is selected when it is appended /
+    added to the result, yielded, returned from inside the loop over the bucket, or passes every `if` of a comprehension."""
+    loop_vars: Set[str] = set()
+    for n in walk_local_ordered(f.node):
+        if isinstance(n, (ast.For, ast.comprehension)):
+            loop_vars |= {x.id for x in ast.walk(n.target) if isinstance(x, ast.Name)}
+    und: List[str] = []
+
+    def comp_take(e: ast.AST, evl: Any) -> List[Any]:
+        out: List[Any] = []
+        for c in ast.walk(e):
+            if isinstance(c, (ast.ListComp, ast.SetComp, ast.GeneratorExp, ast.DictComp)):
+                ok: Any = True
+                for g in c.generators:
+                    for cond in g.ifs:
+                        v = evl.ev(cond)
+                        if v is fd.UNKNOWN:
+                            und.append(norm(cond))
+                            ok = None
+                        elif not evl._truth(v) and ok is not None:
+                            ok = False
+                if ok:
+                    out.append('TAKE')
+        return out
+
+    def eff(node: Any, evl: Any) -> List[Any]:
+        out: List[Any] = []
+        for c in fd.node_calls(node, evl):
+            if call_name(c) in ('append', 'add', 'insert', 'appendleft'):
+                out.append('TAKE')
+        a = node.ast
+        if node.kind == 'stmt' and isinstance(a, ast.Expr) and isinstance(a.value, (ast.Yield, ast.YieldFrom)):
+            out.append('TAKE')
+        if node.kind == 'return' and a.value is not None and isinstance(a.value, ast.Name) and a.value.id in loop_vars:
+            out.append('TAKE')
+        for x in node.exprs():
+            out.extend(comp_take(x, evl))
+        return out
+
+    oc, u = traces(ctx, f, atoms, eff, loop_bound=1, for_iter=lambda n, e: True)
+    took = {('TAKE' in t) for t in oc}
+    rets = {x[1] for t in oc for x in t if isinstance(x, tuple) and x and x[0] == 'ret'}
+    return took, rets, list(u) + und
+
+
+@rule('C05.LOOKUPS', 'D', expect_min=30)
+def lookups(ctx: Any) -> List[Ob]:
+    """Every lookup path of the cache selects with the reference model's predicate: the by-details readers (found by their
+    (name, type, class) signature) take a record of the name's bucket iff BOTH its type and its class are the ones asked for
+    and return nothing for an unknown name; the whole-bucket readers return the whole bucket; the exact-record readers look
+    the record up by identity (equality) in the bucket of its own key; the conflict lookup takes a live pointer with the
+    alias asked for; names() lists the keys of the name index; add / remove of several records visit every record."""
+    R = 'C05.LOOKUPS'
+    prog = ctx.prog
+    cache = prog.cls(CACHE)
+    obs: List[Ob] = []
+    readers = {n: m for n, m in cache.methods.items() if not n.startswith('__')}
+    # (a) by-details readers: signature (self, name, type, class)
+    bydet = [m for m in readers.values() if len(m.params) == 4 and any(self_attr(x, m.params[0]) == 'cache' for x in ast.walk(m.node))]
+    if len(bydet) < 3:
+        raise AnalysisError(f'anchor vanished: by-details readers of the cache (found {[m.name for m in bydet]})')
+    for m in sorted(bydet, key=lambda m: m.name):
+        p_t, p_c = m.params[2], m.params[3]
+        for same_t in (True, False):
+            for same_c in (True, False):
+                took, rets, und = _element_selection(ctx, m, {p_t: 12, p_c: 1, '.type': 12 if same_t else 33, '.class_': 1 if same_c else 255, '.get()': {'r': 'r'}})
+                want = same_t and same_c
+                obs.append(ob(R, m, f'cached record: type {"equal" if same_t else "different"}, class {"equal" if same_c else "different"}', f'it is {"returned" if want else "not returned"} by this by-details lookup', took == {want} and not und, f'selected on {sorted(took)}; undecided {und}'))
+        took, rets, und = _element_selection(ctx, m, {'.get()': None, p_t: 12, p_c: 1})
+        empty = all(r in (None, (), '[]', '{}', 'set()') or r == [] for r in rets)
+        obs.append(ob(R, m, 'name not in the cache', 'nothing is returned for a name the cache does not hold', took <= {False} and empty and bool(rets), f'selected on {sorted(took)}, returns {sorted(map(repr, rets))}'))
+    # (b) whole-bucket readers: one name parameter, no filter
+    whole = [m for m in readers.values() if len(m.params) == 2 and m.name.lstrip('_').startswith(('entries_with', 'async_entries_with'))]
+    if len(whole) < 4:
+        raise AnalysisError(f'anchor vanished: whole-bucket readers of the cache (found {[m.name for m in whole]})')
+    for m in sorted(whole, key=lambda m: m.name):
+        gets = [c for c in ast.walk(m.node) if isinstance(c, ast.Call) and isinstance(c.func, ast.Attribute) and c.func.attr == 'get' and self_attr(c.func.value, m.params[0]) in INDEXES and c.args]
+        ok = False
+        why = f'{len(gets)} index lookups'
+        if len(gets) == 1:
+            bc = norm(gets[0])
+            dflt = fd.Evaluator(prog, m.module, {}).ev(gets[0].args[1]) if len(gets[0].args) > 1 else None
+            bucket = {'r1': 'r1', 'r2': 'r2'}
+            _, rp, up = _element_selection(ctx, m, {bc: bucket})
+            _, ra, ua = _element_selection(ctx, m, {bc: dflt}) if dflt is not fd.UNKNOWN else (set(), {'UNKNOWN'}, [])
+            pres = {repr(x) if not isinstance(x, str) else x for x in rp}
+            absn = {repr(x) if not isinstance(x, str) else x for x in ra}
+            ok = len(pres) == 1 and pres <= {repr(bucket), repr(list(bucket)), repr(tuple(bucket))} and len(absn) == 1 and absn <= {'{}', '[]', '()'} and not up and not ua
+            why = f'present -> {sorted(pres)}; absent -> {sorted(absn)}; undecided {up + ua}'
+        obs.append(ob(R, m, gets[0] if gets else m.name, 'the whole bucket of the key is returned (every record, no filter), and an empty collection for an unknown key', ok, why))
+    # (c) exact-record readers
+    for name in ('async_get_unique', 'get'):
+        m = cache.methods.get(name)
+        if m is None:
+            raise AnalysisError(f'anchor vanished: DNSCache.{name}')
+        ent = m.params[1]
+        # every bucket is selected with the entry's own key; the record is looked up by the entry itself (dict lookup) or by equality
+        key_args = [norm(c.args[0]) for c in ast.walk(m.node) if isinstance(c, ast.Call) and isinstance(c.func, ast.Attribute) and c.func.attr == 'get' and self_attr(c.func.value, m.params[0]) == 'cache' and c.args]
+        obs.append(ob(R, m, f'self.cache.get({ent}.key ...)', 'the bucket searched is the one of the entry\'s own lower-cased key', bool(key_args) and all(k == f'{ent}.key' for k in key_args), f'keys {key_args}'))
+    g = cache.methods['get']
+    ent = g.params[1]
+    for uniq in (True, False):
+        for eq in (True, False):
+            atoms = {'isinstance()': uniq, '.__eq__()': eq, '.get()': {'r': 'r'}}
+            for c in ast.walk(g.node):
+                if isinstance(c, ast.Compare) and len(c.ops) == 1 and isinstance(c.ops[0], (ast.Eq, ast.NotEq)) and ent in (norm(c.left), norm(c.comparators[0])):
+                    atoms[norm(c)] = eq if isinstance(c.ops[0], ast.Eq) else not eq
+            took, rets, und = _element_selection(ctx, g, atoms)
+            if uniq:
+                # dictionary lookup of the entry itself
+                direct = [c for c in ast.walk(g.node) if isinstance(c, ast.Call) and isinstance(c.func, ast.Attribute) and c.func.attr == 'get' and c.args and norm(c.args[0]) == ent]
+                obs.append(ob(R, g, f'unique record type, stored copy {"equal" if eq else "different"}', 'a unique record is looked up by the entry itself in its bucket', bool(direct) and not und, f'undecided {und}'))
+            else:
+                obs.append(ob(R, g, f'shared record type, stored copy {"equal" if eq else "different"}', f'the stored copy is {"returned" if eq else "skipped"}', took == {eq} and not und and (eq or rets <= {None}), f'selected on {sorted(took)}; returns {sorted(map(repr, rets))}; undecided {und}'))
+    u = cache.methods['async_get_unique']
+    direct = [c for c in ast.walk(u.node) if isinstance(c, ast.Call) and isinstance(c.func, ast.Attribute) and c.func.attr == 'get' and c.args and norm(c.args[0]) == u.params[1]]
+    bucket_calls = {norm(c) for c in ast.walk(u.node) if isinstance(c, ast.Call) and isinstance(c.func, ast.Attribute) and c.func.attr == 'get' and self_attr(c.func.value, u.params[0]) == 'cache'}
+    res_abs: Set[Any] = set()
+    res_pre: Set[Any] = set()
+    und_u: List[str] = []
+    for bc in bucket_calls:
+        _, r1, u1 = _element_selection(ctx, u, {bc: None, u.params[1]: 'r'})
+        _, r2, u2 = _element_selection(ctx, u, {bc: {'r': 'STORED'}, u.params[1]: 'r'})
+        res_abs |= r1
+        res_pre |= r2
+        und_u += u1 + u2
+    obs.append(ob(R, u, direct[0] if direct else 'store.get(entry)', 'the unique lookup returns the stored copy found by the entry itself, and None when the name is unknown', len(direct) == 1 and len(bucket_calls) == 1 and res_abs == {None} and res_pre == {'STORED'} and not und_u, f'unknown name -> {sorted(map(repr, res_abs))}; stored -> {sorted(map(repr, res_pre))}; undecided {und_u}'))
+    # (d) the conflict lookup: a live pointer with the alias asked for
+    ce = cache.methods.get('current_entry_with_name_and_alias')
+    if ce is None:
+        raise AnalysisError('anchor vanished: DNSCache.current_entry_with_name_and_alias')
+    p_alias = ce.params[2]
+    ptr = prog.const('zeroconf.const', '_TYPE_PTR')
+    for is_ptr in (True, False):
+        for expired in (True, False):
+            for same in (True, False):
+                atoms = {'.type': ptr if is_ptr else 33, '.is_expired()': expired, '.alias': 'a', p_alias: 'a' if same else 'b', '.alias_key': 'a', '.entries_with_name()': ['r'], '.get()': {'r': 'r'}}
+                took, rets, und = _element_selection(ctx, ce, atoms)
+                want = is_ptr and not expired and same
+                obs.append(ob(R, ce, f'cached record: {"pointer" if is_ptr else "other type"}, {"expired" if expired else "live"}, alias {"equal" if same else "different"}', f'it {"is" if want else "is not"} reported as the current holder of the name', took == {want} and not und, f'selected on {sorted(took)}; undecided {und}'))
+    # (e) names(): the keys of the name index
+    nm = cache.methods.get('names')
+    if nm is None:
+        raise AnalysisError('anchor vanished: DNSCache.names')
+    e = single_return_expr(nm)
+    v = fd.Evaluator(prog, nm.module, {f'{nm.params[0]}.cache': {'n1': {}, 'n2': {}}, f'{nm.params[0]}.cache.keys()': ['n1', 'n2']}).ev(e.args[0]) if isinstance(e, ast.Call) and norm(e.func) in ('list', 'sorted', 'tuple') and len(e.args) == 1 else fd.UNKNOWN
+    obs.append(ob(R, nm, e, 'names() lists every key of the name index', v is not fd.UNKNOWN and sorted(v) == ['n1', 'n2'], f'evaluates to {v!r}'))
+    # (f) add / remove of several records visit every record (no short-circuit, no early exit), and every add stores
+    for outer, inner in (('async_add_records', '_async_add'), ('async_remove_records', '_async_remove')):
+        m = cache.methods[outer]
+
+        def eff(node: Any, evl: Any, inner: str = inner) -> List[Any]:
+            out: List[Any] = ['ITER'] if node.kind == 'for' else []
+            out += ['DO' for c in fd.node_calls(node, evl) if call_name(c) == inner]
+            return out
+
+        bad = []
+        for res in (True, False):
+            oc, _ = traces(ctx, m, {f'.{inner}()': res}, eff, loop_bound=2, for_iter=lambda n, e: True)
+            for t in oc:
+                # the for node is visited once more than it iterates
+                if sum(1 for x in t if x == 'DO') != max(0, sum(1 for x in t if x == 'ITER') - 1) or 'DO' not in t:
+                    bad.append((res, strip_ret(t)))
+        obs.append(ob(R, m, f'for entry in entries: self.{inner}(entry)', f'every record handed in is passed to {inner} (whatever the earlier ones returned)', not bad, f'paths {bad[:2]}'))
+    add = cache.methods['_async_add']
+    rec = add.params[1]
+    for is_srv in (True, False):
+        for present in (True, False):
+            atoms = {'isinstance()': is_srv}
+            for c in ast.walk(add.node):
+                if isinstance(c, ast.Compare) and len(c.ops) == 1 and isinstance(c.ops[0], (ast.In, ast.NotIn)) and norm(c.left) == rec:
+                    atoms[norm(c)] = present if isinstance(c.ops[0], ast.In) else not present
+                if isinstance(c, ast.Call) and norm(c.func) == 'isinstance' and len(c.args) == 2 and 'DNSService' not in norm(c.args[1]):
+                    atoms[norm(c)] = False
+
+            def eff_store(node: Any, evl: Any) -> List[Any]:
+                out = []
+                a = node.ast
+                if node.kind == 'stmt' and isinstance(a, ast.Assign):
+                    for t in a.targets:
+                        if isinstance(t, ast.Subscript) and norm(t.slice) == rec and norm(a.value) == rec:
+                            d = _resolve_alias(add, t.value)
+                            out.append('SRV' if 'service_cache' in d else ('NAME' if 'cache' in d else 'OTHER'))
+                return out
+
+            oc, und = traces(ctx, add, atoms, eff_store)
+            want = ('NAME', 'SRV') if is_srv else ('NAME',)
+            got = {tuple(sorted(set(strip_ret(t)))) for t in oc}
+            obs.append(ob(R, add, f'record {"is" if is_srv else "is not"} an SRV record, equal copy {"present" if present else "absent"}', f'the record is stored in {" and ".join("the name index" if w == "NAME" else "the host index" for w in want)}', got == {tuple(sorted(want))}, f'stores on the paths: {sorted(got)}'))
+    return obs
+
+
 EXPLANATION = (
     'C05.KV (necessary condition): every store into a Dict[DNSRecord, DNSRecord] (found by type) keeps key and value the same '
     'object and drops an equal key first -- the invariant without which by-key readers (purge, by-details lookups) and by-value '
@@ -573,6 +771,9 @@ EXPLANATION = (
 EXPLANATION_ADDENDUM = (
     ' C05.TWOINDEX also requires every cache index to keep a collection of records per key. C05.REFRESH also decides the flush-set table (every record with the cache-flush bit feeds it, whatever its TTL) and that the pointer floor precedes every use of the record. C05.PURGE also requires the purge report to be re-iterable for every listener.'
 )
+EXPLANATION_ADDENDUM += (
+    ' C05.LOOKUPS (decided): decision tables of every lookup path of the cache (by name/type/class, whole bucket by name and by SRV target host, exact record, conflict lookup, names) against the reference model\'s selection predicate; multi-record add / remove visit every record and an add stores in both indexes.'
+)
 EXPLANATION = EXPLANATION + EXPLANATION_ADDENDUM
 
-RULES = [kv, twoindex, keys, own, purge, refresh, lifetime]
+RULES = [kv, twoindex, keys, own, purge, refresh, lifetime, lookups]
